@@ -154,6 +154,22 @@ def check(facts, rep, tier, cfg):
             rep.ok("C16.R2", "after-tick-in-loop", where, "check performed after each tick, inside the loop")
         else:
             rep.bad("C16.R2", "after-tick-in-loop", where, "the timeout check is not performed after every interval tick inside the ping loop")
+        # necessity: every interval tick is followed by a Ping (or by the timeout return): no way round the loop skips it
+        if ticks and pings:
+            skip = False
+            for tk in ticks:
+                # a cycle tick -> ... -> tick that avoids every Ping emission
+                for s0 in b.succ[tk]:
+                    if b.blocks[s0]["cleanup"]:
+                        continue
+                    if tk in b.reachable_from(s0, cut=set(pings)):
+                        skip = True
+            if skip:
+                rep.bad("C16.R2", "ping-every-tick", where,
+                        "the keepalive loop can go from one interval tick to the next without queueing a Ping: pings are no longer sent every interval, so "
+                        "the last-pong timestamp goes stale and a live peer is timed out at the next check (or a dead one is noticed late)")
+            else:
+                rep.ok("C16.R2", "ping-every-tick", where, "every tick is followed by a Ping or the timeout return")
         # freshness: both samples of the predicate (last pong, now) are taken after the last suspension before the check
         yields = set(bi for bi in range(len(b.blocks)) if b.term(bi)["k"] == "Yield" and not b.blocks[bi]["cleanup"])
         samples = []
